@@ -22,7 +22,8 @@ RULE = ('random interleavings (8-30 operations quick, 12-56 thorough, 1-4 instan
 ASSUMPTIONS = [
     'runtime.get_runtime_cls -> LinuxRuntime (no entry points registered); runtime.get_runtime -> object whose '
     'finish() removes the container directory (kernel teardown is the boundary)',
-    'subproc.resolve, supervisor.control_svscan, supervisor.control_service (s6) are no-op fakes',
+    'subproc.resolve, supervisor.control_svscan, supervisor.control_service (s6) are no-op fakes; os.fsync is a no-op '
+    '(durability barrier, no crash cuts in this check)',
     'AppCfgMgr.run() loop replaced by the driver calling DirWatcher.process_events(max_events=1) on a real inotify '
     'watcher; restart = new AppCfgMgr + new watcher (pending events lost)',
     'cache files are written by the harness with the same calls EventMgr._cache/_synchronize use (fs.write_safe '
@@ -106,7 +107,7 @@ def run(ctx):
                 if small_v is not None:
                     case_ops, (mech, msg, witness) = small, small_v
                     ctx.count('_shrunk_witnesses')
-            ctx.violation(mech, msg, witness=witness, case={'ops': [list(o) for o in case_ops]})
+            ctx.violation(mech, msg, witness=witness, case={'ops': [list(o) for o in case_ops], 'tidy': gen.tidy})
         desc = [list(o) for o in ops]
         ctx.done(case_desc=desc, nontrivial=bool(flags),
                  sample={'ops': desc, 'facts': flags} if idx < 1 else None)
